@@ -170,6 +170,45 @@ def write_gen_file(name, text):
             f.write(text)
 
 
+def build_verifgen():
+    """The fact extractor (harness/gen, stdlib only) is built outside /repo's workspace."""
+    out = os.path.join(BUILD, "bin", "verifgen")
+    os.makedirs(os.path.dirname(out), exist_ok=True)
+    env = dict(os.environ)
+    env.pop("GOFLAGS", None)
+    env.update({"GOWORK": "off", "GOPROXY": "off", "GOTOOLCHAIN": "local"})
+    rc, o = run(["go", "build", "-o", out + ".%d" % os.getpid(), "."], cwd=os.path.join(HARNESS, "gen"), env=env, timeout=600)
+    if rc != 0:
+        raise RuntimeError("verifgen build failed: " + o[-2000:])
+    os.replace(out + ".%d" % os.getpid(), out)
+    return out
+
+
+def gen_sites(tag, files, only=None):
+    """Regenerate lean/Hy/Gen/Sites<tag>.lean from the CURRENT source of `files` (paths relative
+    to /repo): per function, the number of index / slice / make / div-mod / fixed-width
+    conversion / panic / unchecked type-assertion sites.  The Props file holds the expected
+    table (with the covering theorem per function); the kernel decides equality."""
+    b = build_verifgen()
+    rc, o = run([b, REPO] + list(files), timeout=120)
+    if rc != 0:
+        raise RuntimeError("verifgen failed: " + o[-2000:])
+    rows = []
+    for ln in o.splitlines():
+        f = ln.split()
+        if len(f) != 8:
+            continue
+        if only and not re.search(only, f[0]):
+            continue
+        rows.append('  ("%s", [%s])' % (f[0], ", ".join(f[1:])))
+    text = ("/- REGENERATED from /repo on every run (harness/gen). Do not edit.\n"
+            "   per function: [index, slice, make, div/mod, fixed-width conversion, panic, unchecked type assertion] -/\n"
+            "namespace Hy.Gen.Sites%s\ndef sites : List (String × List Nat) := [\n%s\n]\nend Hy.Gen.Sites%s\n"
+            % (tag, ",\n".join(rows), tag))
+    write_gen_file("Sites" + tag, text)
+    return o
+
+
 # ----------------------------------------------------------------- Lean: build, audit, recheck
 
 def lake_build(targets):
